@@ -263,4 +263,14 @@ theorem getMonthDays_eq (t : Time) : getMonthDays t = daysInMonth t.year t.month
   rcases hm' with h | h | h | h | h | h | h | h | h | h | h | h <;> subst h <;>
     simp [e4, e100, e400] <;> simp at hd <;> grind
 
+/-- wall clock of an instant: nanoseconds since local midnight -/
+theorem nsOfDay_of_hms (off z h mi s : Int) (hv : validHMS h mi s = true) :
+    nsOfDay off (z * nsPerDay - off * nsPerSec + (h * 3600 + mi * 60 + s) * nsPerSec) = (h * 3600 + mi * 60 + s) * nsPerSec ∧
+    localDays off (z * nsPerDay - off * nsPerSec + (h * 3600 + mi * 60 + s) * nsPerSec) = z := by
+  simp only [validHMS, Bool.and_eq_true, decide_eq_true_eq] at hv
+  have := localDays_midnight off z ((h * 3600 + mi * 60 + s) * nsPerSec) (by unfold nsPerSec; omega)
+    (by unfold nsPerDay nsPerSec; omega)
+  exact ⟨this.2, this.1⟩
+
+
 end MV.Model.Chrono
